@@ -1598,10 +1598,11 @@ def rule_D7b(repo: Repo) -> RuleResult:
                 "(compared in canonical arithmetic form)")
     std = core.func("GroupBy.std")
     r = [x for x in walk_no_nested(std.node) if isinstance(x, ast.Return) and x.value is not None]
-    okstd = len(r) == 1 and ((isinstance(r[0].value, ast.BinOp) and isinstance(r[0].value.op, ast.Pow)
-                              and norm(r[0].value.right) in ("0.5", "1 / 2")) or
-                             (isinstance(r[0].value, ast.Call) and norm(r[0].value.func) in ("np.sqrt", "numpy.sqrt")))
-    if okstd and ".var(" in norm(r[0].value):
+    from .canon import subst_single_defs
+    rv = subst_single_defs(std, r[0].value) if len(r) == 1 else None     # `v = self.var(..); return v ** 0.5`
+    okstd = rv is not None and ((isinstance(rv, ast.BinOp) and isinstance(rv.op, ast.Pow) and norm(rv.right) in ("0.5", "1 / 2")) or
+                                (isinstance(rv, ast.Call) and norm(rv.func) in ("np.sqrt", "numpy.sqrt")))
+    if okstd and ".var(" in norm(rv):
         res.ok(std, r[0], f"std = {norm(r[0].value)[:60]}", "square root of var")
     else:
         res.bad(std, r[0] if r else std.node, f"std = {norm(r[0].value)[:60] if r else '?'}", "std must be the square root of var")
